@@ -187,6 +187,10 @@ func (b *Bucket) MarshalBinary() (data []byte, err error) {
 		bytes, err = a.MarshalBinary()
 		data = append(data, bytes...)
 	}
+	// Len() rounds the bucket up to a multiple of 8: write that padding
+	if len(data) < int(b.Length) {
+		data = append(data, make([]byte, int(b.Length)-len(data))...)
+	}
 
 	return
 }
